@@ -22,11 +22,7 @@ C='consensus_thread::ConsensusThread::'; CP='consensus_thread::ConsensusThread_a
 N='io::network::Network::'; M='consensus::mempool::Mempool::'; P='consensus::peers::peer::Peer::'
 PC='consensus::peers::peer_collection::PeerCollection::'
 exact = {
- R+'process_incoming_message#1-unwrap': K('key-list-limit-unwrap'),
- R+'process_incoming_message#2-unreachable': K('block-tag-unreachable'),
  R+'process_ghost_chain_request#1-unwrap': U("the entry was found by process_network_event (find_peer_by_index_mut(..)?) in the same task before dispatch; entries are removed only by this task (timer purge, reconnection merge, stun removal), never between lookup and dispatch"),
- R+'process_ghost_chain_request#2-unwrap': K('ghost-request-no-key'),
- R+'process_ghost_chain_request#3-unwrap': IO,
  R+'process_incoming_blockchain_request#1-unwrap': IO,
  R+'send_to_verification_thread#1-expect': U("index is taken modulo the vector length; the vector is non-empty by the assert in on_init (routing_thread::RoutingThread_as_ProcessEvent::on_init#1-assert)"),
  R+'send_to_verification_thread#2-unwrap': CH,
@@ -38,7 +34,7 @@ exact = {
  RP+'process_network_event#4-unwrap': IO,
  RP+'process_network_event#5-unreachable': ('L', "the remaining NetworkEvent variants (OutgoingNetworkMessage, OutgoingNetworkMessageForAll, ConnectToPeer, DisconnectFromPeer, BlockFetchRequest) travel from the core to the IO layer; the IO layer of saito-rust never sends them to the routing thread"),
  RP+'on_init#1-assert': CFG,
- V+'verify_tx#1-unwrap': CH, V+'verify_txs#1-unwrap': CH, V+'verify_block#3-unwrap': CH,
+ V+'verify_tx#1-unwrap': CH, V+'verify_txs#1-unwrap': CH,
  V+'verify_block#1-unwrap': U("guarded by the result.is_err() early return above"),
  V+'verify_block#2-unwrap': K('verify-block-generate-unwrap'),
  VP+'process_network_event#1-unreachable': ('L', "no network event receiver is given to the verification threads (run_verification_thread passes None)"),
@@ -49,9 +45,7 @@ exact = {
  CP+'process_network_event#1-unreachable': ('L', "no network event receiver is given to the consensus thread"),
  CP+'on_init#1-unwrap@info': CFG, CP+'on_init#2-unwrap@info': CFG, CP+'on_init#3-unwrap@info': CFG, CP+'on_init#4-expect': CFG, CP+'on_init#5-unwrap': CH,
  N+'propagate_block#1-unwrap': IO,
- N+'propagate_transaction#1-expect': K('propagate-tx-without-inputs'),
  N+'propagate_transaction#2-unwrap': U("guarded by the get_public_key().is_none() continue above"),
- N+'propagate_transaction#3-unwrap': IO,
  N+'handle_peer_disconnect#1-unwrap': IO,
  N+'handle_peer_disconnect#2-unwrap': U("guarded by get_public_key().is_some()"),
  N+'handle_new_peer#1-unwrap': IO,
@@ -62,7 +56,6 @@ exact = {
  N+'handle_handshake_response#3-unwrap': U("guarded by the `result.is_err() || peer.get_public_key().is_none()` early return"),
  N+'handle_handshake_response#4-expect': U("remove_reconnected_peer only removes an entry of the same key that is NOT Connected; the current entry was just marked Connected by Peer::handle_handshake_response (Handshake.v, C17_bad_response_inert / C17_connected_authentic run the same code path without this panic)"),
  N+'handle_handshake_response#5-unwrap@debug': U("guarded by the public_key.is_none() continue above"),
- N+'handle_received_key_list#1-unwrap@debug': K('key-list-limit-unwrap'),
  N+'send_key_list#1-unwrap': IO, N+'request_blockchain_from_peer#1-unwrap': IO, N+'connect_to_static_peers#1-unwrap': IO,
  N+'update_peer_timer#1-unwrap': U("guarded by the peer.is_none() early return"),
  M+'add_transaction#1-debug_assert': U("every caller (add_transaction_if_validates, Blockchain::add_block_transactions_back) passes a transaction on which generate()/validate() has run, which sets hash_for_signature; debug builds only"),
@@ -87,7 +80,6 @@ for k in range(1,5):
 by_text = [
  (R+'process_ghost_chain_request#1-unwrap', 'find_peer_by_index', exact[R+'process_ghost_chain_request#1-unwrap']),
  (R+'process_ghost_chain_request#1-unwrap', '.unwrap();', IO),
- (V+'verify_block#2-unwrap', 'generate()', K('verify-block-generate-unwrap')),
  (V+'verify_block#2-unwrap', '.unwrap();', CH),
  (N+'propagate_transaction#1-unwrap', 'get_public_key', U("guarded by the get_public_key().is_none() continue above")),
  (N+'propagate_transaction#2-unwrap', 'get_public_key', U("guarded by the get_public_key().is_none() continue above")),
